@@ -2,7 +2,7 @@ SPECIFICATION MCSpec
 CONSTANTS
   Runs = {"A"}
   Mode = "mc"
-  Faithful = {"F8"}
+  Faithful = {}
   Tabs <- MCTabs
   MaxVal = 3
   MaxRho = 3
